@@ -74,6 +74,34 @@ theorem iccStage_shapes (aux : List Chunk) (o : MetaOpts) (inf : Bytes → Optio
           | some z => exact Or.inr (Or.inr (Or.inr ⟨icc, z, rfl, hrec, rfl, hz⟩))
         · rw [if_neg hrec]; left; rfl
 
+/-- **Replacement and recompression happen in place**: unless the profile is dropped in favour of an
+    existing sRGB chunk, the chunk list keeps its length and every other chunk keeps its position - so
+    the new sRGB (or recompressed iCCP) chunk stands exactly where the iCCP stood, on the same side
+    of PLTE and IDAT (the seeded change C02j appended it behind the image-data marker instead). -/
+theorem replacement_in_place (aux : List Chunk) (o : MetaOpts) (inf : Bytes → Option Bytes)
+    (rc : Bytes → Nat → Option Bytes) (idx : Nat)
+    (hidx : aux.findIdx? (fun c => c.name = nm "iCCP") = some idx)
+    (hkeep : ¬ ((o.strip ≠ .none && o.strip.keeps (nm "sRGB")) = true ∧ hasChunk aux (nm "sRGB") = true)) :
+    (iccStage aux o inf rc).1.length = aux.length ∧
+    ∀ j, j ≠ idx → (iccStage aux o inf rc).1[j]? = aux[j]? := by
+  have hs := iccStage_shapes aux o inf rc
+  simp only at hs
+  rcases hs with ⟨hnone, _⟩ | ⟨i, hi, hr⟩
+  · rw [hidx] at hnone; cases hnone
+  · rw [hidx] at hi
+    cases hi
+    rcases hr with h | ⟨_, h1, h2, h3⟩ | ⟨intent, icc, h, _⟩ | ⟨icc, z, h, _⟩
+    · rw [h]; exact ⟨rfl, fun _ _ => rfl⟩
+    · exfalso
+      apply hkeep
+      refine ⟨?_, h3⟩
+      simp only [Bool.and_eq_true, ne_eq, decide_eq_true_eq]
+      exact ⟨by simpa using h1, h2⟩
+    · rw [h]
+      exact ⟨List.length_set, fun j hj => List.getElem?_set_ne (Ne.symm hj)⟩
+    · rw [h]
+      exact ⟨List.length_set, fun j hj => List.getElem?_set_ne (Ne.symm hj)⟩
+
 /-- **An ICC profile that is kept (as is, or recompressed) disables grayscale conversion**, so by
     C08 the image never moves between grayscale and colour while the profile is kept. -/
 theorem kept_icc_blocks_gray (aux : List Chunk) (o : MetaOpts) (inf : Bytes → Option Bytes)
